@@ -138,6 +138,47 @@ def clamp_programs():
     return out
 
 
+def compaction_program(rnd):
+    """the poll array is compacted and grows again inside one scan: the descriptor in the last slot (both directions, both ready;
+    or one direction) runs a callback that cancels registrations of descriptors in lower slots (some with a hang-up or error pending,
+    not yet scanned) and registers descriptors that were never polled and are NOT ready - whatever is left in a retired slot must
+    not make those run"""
+    nfd = rnd.randint(3, 5)                    # (the trace specification's configuration has 8 descriptors)
+    fresh = [nfd, nfd + 1, nfd + 2]
+    P = Prog(nfd + 3)
+    order = list(range(nfd))
+    rnd.shuffle(order)
+    top = order[-1]
+    regs = {}                                  # fd -> list of directions registered
+    for fd in order[:-1]:
+        regs[fd] = rnd.choice([["R"], ["W"], ["R"], ["R", "W"]])
+    regs[top] = rnd.choice([["R", "W"], ["R", "W"], ["W", "R"], ["R"]])
+    # what the callbacks of the top descriptor do
+    def script():
+        ops = []
+        for fd in rnd.sample(order[:-1], rnd.randint(1, min(3, nfd - 1))):
+            for d in regs[fd]:
+                ops.append("cancel_sock %d %s" % (fd, d))
+        for nf in rnd.sample(fresh, rnd.randint(1, 3)):
+            s2 = P.slot([], 0)
+            ops.append("reg_sock %d %d %s" % (s2, nf, rnd.choice("RW")))
+        if rnd.random() < 0.3:
+            fd = rnd.choice(order[:-1])
+            s3 = P.slot([], 0)
+            ops += ["cancel_sock %d %s" % (fd, regs[fd][0]), "reg_sock %d %d %s" % (s3, fd, regs[fd][0])]
+        return ops
+    for fd in order:
+        for d in regs[fd]:
+            sl = P.slot(script() if fd == top and rnd.random() < 0.8 else [], 0)
+            P.main.append("reg_sock %d %d %s" % (sl, fd, d))
+    for fd in order:
+        P.main.append("env %d %d" % (fd, 3 if fd == top else rnd.choice([3, 1, 2, 8, 9, 4, 0, 3])))
+    for nf in fresh:
+        P.main.append("env %d 0" % nf)
+    P.main += ["run", "run", "run"]
+    return P
+
+
 def timer_program(rnd):
     """many pending timers (the heap under the timer queue several levels deep), deadlines with ties, cancels and resets
     of arbitrary ones from outside and from inside timer callbacks: deadline order under deletion from the middle"""
